@@ -50,7 +50,12 @@ fn payload(p: u8) -> (Option<RefSrc>, bool) {
 fn orig_model(c: &Case) -> MM {
     MM {
         file: Some("orig.js".into()),
-        root: None,
+        // (a source root on the original map in a third of the cases: the tokens' source *names* are
+        // part of what the result carries)
+        root: match c.orig.len() % 3 {
+            0 => Some("webpack:///src".into()),
+            _ => None,
+        },
         sources: vec!["s0.js".into(), "s1.js".into()],
         contents: vec![Some("content 0".into()), None],
         names: vec!["nm".into()],
